@@ -194,6 +194,12 @@ func (f *fctx) builtin(ins *ssa.Call, b *ssa.Builtin) {
 		f.assume(T(SBool, "(forall ((q!k Int)) (! (=> (and (<= 0 q!k) (< q!k (seq.len %s))) (= (select (seq.el %s) q!k) (select (seq.el %s) q!k))) :pattern ((select (seq.el %s) q!k))))", s.S, r.S, s.S, r.S))
 		f.assume(T(SBool, "(forall ((q!k Int)) (! (=> (and (<= 0 q!k) (< q!k (seq.len %s))) (= (select (seq.el %s) (+ (seq.len %s) q!k)) (select (seq.el %s) q!k))) :pattern ((select (seq.el %s) q!k))))", t.S, r.S, s.S, t.S, t.S))
 		f.assume(T(SBool, "(forall ((q!k Int)) (! (=> (and (<= (seq.len %s) q!k) (< q!k (seq.len %s))) (= (select (seq.el %s) q!k) (select (seq.el %s) (- q!k (seq.len %s))))) :pattern ((select (seq.el %s) q!k))))", s.S, r.S, r.S, t.S, s.S, r.S))
+		// membership form of the same fact (a consequence of the three clauses above), stated over the predicate
+		// of member(e, s) so that chains of set facts go through concatenations by matching
+		if pn := memberPred(s.Sort); pn != "" {
+			f.assume(T(SBool, "(forall ((q!e %s)) (! (= (%s %s q!e) (or (%s %s q!e) (%s %s q!e))) :pattern ((%s %s q!e)) :pattern ((%s %s q!e)) :pattern ((%s %s q!e))))",
+				s.Sort.Elem.SMT(), pn, r.S, pn, s.S, pn, t.S, pn, r.S, pn, s.S, pn, t.S))
+		}
 		f.setVal(ins, r)
 	default:
 		f.fail("builtin %s", b.Name())
@@ -862,6 +868,22 @@ func countLoops(fn *ssa.Function) int {
 		}
 	}
 	return n
+}
+
+// memberPred: the membership predicate of member(e, s) for sequences of this sort ("" if there is none).
+func memberPred(s *Sort) string {
+	if s == nil || s.Kind != KSeq {
+		return ""
+	}
+	switch s.Elem.Kind {
+	case KInt:
+		return "seq.in.Int"
+	case KStr:
+		return "seq.in.Str"
+	case KAny:
+		return "seq.in.Any"
+	}
+	return ""
 }
 
 func conjuncts(e Expr) []Expr {
